@@ -9,6 +9,7 @@ import (
 	"sort"
 	"strings"
 
+	"gedverif/internal/lin"
 	"gedverif/internal/load"
 	"gedverif/internal/oblig"
 	"gedverif/internal/su"
@@ -108,6 +109,8 @@ func C16(p *load.Prog, r *oblig.Run) {
 	r.Rule("R16.c", "documented function names are registered with their own expression types; calls forward the call's own arguments", 9)
 	r.Rule("R16.d", "results built by appending are built on a slice the expression made itself (appending to a received slice can write into the caller's backing array)", 4)
 	c16FreshAppend(p, r)
+	c16ReflectSlices(p, r)
+	c16Variables(p, r)
 	ops, err := extractOperators(p)
 	if err != nil {
 		r.Add("R16.a", "Operators table", "-", "operator registry").Unknown(err.Error())
@@ -568,5 +571,165 @@ func c16FreshAppend(p *load.Prog, r *oblig.Run) {
 				o.Fail("the destination of the append is not a slice the expression made itself but " + bad + ": when that slice has spare capacity the append writes into the backing array it shares with the value it came from (another result, or the document)")
 			}
 		}
+	}
+}
+
+// c16ReflectSlices (R16.g): a reflect re-slice in package q never reaches past
+// the length of the list - Value.Slice only checks the capacity, so an upper
+// bound clamped against anything else returns the zero elements that sit in the
+// spare capacity of a list built by appending. The bound must be provably <=
+// recv.Len() from the dominating tests (small linear prover over the SSA).
+func c16ReflectSlices(p *load.Prog, r *oblig.Run) {
+	r.Rule("R16.g", "the upper bound of every reflect re-slice of a list is at most the list's length", 2)
+	ord := map[string]int{}
+	for _, fn := range p.Repo {
+		if pkgPathOf(fn) != load.PkgQ || len(fn.Blocks) == 0 {
+			continue
+		}
+		for _, c := range su.Calls(fn) {
+			cc := c.Common()
+			cal := cc.StaticCallee()
+			if cal == nil || cal.Pkg == nil || cal.Pkg.Pkg.Path() != "reflect" || cal.Name() != "Slice" || len(cc.Args) != 3 {
+				continue
+			}
+			key := "re-slice in " + load.FuncName(fn)
+			ord[key]++
+			if ord[key] > 1 {
+				key = fmt.Sprintf("%s #%d", key, ord[key])
+			}
+			o := r.Add("R16.g", key, p.Pos(c.Pos()), "upper bound of reflect.Value.Slice")
+			hi := cc.Args[2]
+			if k, ok := su.ConstInt(hi); ok && k == 0 {
+				o.OK("constant 0")
+				continue
+			}
+			// Len() calls on the same reflect.Value
+			proved := false
+			for _, c2 := range su.Calls(fn) {
+				cal2 := c2.Common().StaticCallee()
+				if cal2 == nil || cal2.Pkg == nil || cal2.Pkg.Pkg.Path() != "reflect" || cal2.Name() != "Len" || len(c2.Common().Args) != 1 {
+					continue
+				}
+				if c2.Common().Args[0] != cc.Args[0] {
+					continue
+				}
+				lv, ok := c2.(ssa.Value)
+				if !ok || !(c2.Block() == c.Block() || c2.Block().Dominates(c.Block())) {
+					continue
+				}
+				if hi == lv || lin.ProveGoals(c.(ssa.Instruction), []lin.Goal{{Op: token.LEQ, X: hi, Y: lv}}, func(ssa.Value) bool { return false }) {
+					proved = true
+				}
+			}
+			if proved {
+				o.OK("at most Len() of the same value by the dominating tests")
+			} else {
+				o.Fail("the upper bound of the re-slice is not shown to be <= Len() of the list (it is clamped against something else, e.g. the capacity): for a list built by appending the result includes zero-value elements beyond its end")
+			}
+		}
+	}
+}
+
+// c16Variables (R16.e/f): a variable is interchangeable with its definition -
+// VariableExpr.Evaluate answers with the variable's statement evaluated on its
+// own input; and binaryFloats decides "numeric" from the two ParseFloat errors
+// and nothing else.
+func c16Variables(p *load.Prog, r *oblig.Run) {
+	r.Rule("R16.e", "a variable evaluates its definition on the value piped into it", 1)
+	r.Rule("R16.f", "two operands are compared numerically exactly when both parse as numbers (strconv.ParseFloat), whatever they look like", 1)
+	ve := p.Method(load.PkgQ, "VariableExpr", "Evaluate")
+	se := p.Method(load.PkgQ, "Statement", "Evaluate")
+	o := r.Add("R16.e", "value returned by VariableExpr.Evaluate", "-", "what a variable reference evaluates to")
+	if ve == nil || se == nil || len(ve.Params) < 3 {
+		o.Unknown("VariableExpr.Evaluate / Statement.Evaluate not found")
+	} else {
+		o.Pos = p.Pos(ve.Pos())
+		input := ve.Params[2]
+		bad, n := "", 0
+		for _, b := range ve.Blocks {
+			ret, ok := b.Instrs[len(b.Instrs)-1].(*ssa.Return)
+			if !ok || len(ret.Results) != 2 {
+				continue
+			}
+			v := ret.Results[0]
+			// spilled named results: load of an alloc
+			var vals []ssa.Value
+			if ld, isLd := v.(*ssa.UnOp); isLd {
+				if al, isAl := ld.X.(*ssa.Alloc); isAl {
+					for _, ref := range *al.Referrers() {
+						if st, ok := ref.(*ssa.Store); ok && st.Addr == ssa.Value(al) {
+							vals = append(vals, st.Val)
+						}
+					}
+				}
+			}
+			if len(vals) == 0 {
+				vals = []ssa.Value{v}
+			}
+			for _, x := range vals {
+				if k, isK := x.(*ssa.Const); isK && k.Value == nil {
+					continue // nil with an error
+				}
+				n++
+				ex, isEx := x.(*ssa.Extract)
+				var call *ssa.Call
+				if isEx {
+					call, _ = ex.Tuple.(*ssa.Call)
+				}
+				if call == nil || call.Call.StaticCallee() != se || len(call.Call.Args) < 3 || call.Call.Args[2] != ssa.Value(input) {
+					bad = "a value that is not Statement.Evaluate(engine, input) of the variable's statement (" + x.String() + ")"
+				}
+			}
+		}
+		switch {
+		case n == 0:
+			o.Unknown("no value returned")
+		case bad != "":
+			o.Fail("VariableExpr.Evaluate can answer with " + bad + ": a variable is then not interchangeable with its definition (Count is Length; .Individuals | Count no longer counts the individuals)")
+		default:
+			o.OK("the variable's statement evaluated on the input")
+		}
+	}
+	bf := p.Func(load.PkgQ, "binaryFloats")
+	o2 := r.Add("R16.f", "numeric verdict of binaryFloats", "-", "what decides between numeric and text comparison")
+	if bf == nil {
+		o2.Unknown("binaryFloats not found")
+		return
+	}
+	o2.Pos = p.Pos(bf.Pos())
+	// every branch test in binaryFloats is a nil test of a ParseFloat error
+	bad := ""
+	nTests := 0
+	for _, b := range bf.Blocks {
+		iff, ok := b.Instrs[len(b.Instrs)-1].(*ssa.If)
+		if !ok {
+			continue
+		}
+		cond := iff.Cond
+		if u, isNot := cond.(*ssa.UnOp); isNot && u.Op == token.NOT {
+			cond = u.X
+		}
+		okTest := false
+		if bo, isBo := cond.(*ssa.BinOp); isBo && (bo.Op == token.EQL || bo.Op == token.NEQ) {
+			if k, isK := bo.Y.(*ssa.Const); isK && k.Value == nil {
+				if ex, isEx := bo.X.(*ssa.Extract); isEx {
+					if c, isCall := ex.Tuple.(*ssa.Call); isCall && su.CalleeIs(&c.Call, "strconv", "ParseFloat") {
+						okTest = true
+						nTests++
+					}
+				}
+			}
+		}
+		if !okTest {
+			bad = "the branch at " + p.Pos(iff.Pos()) + " tests " + iff.Cond.String()
+		}
+	}
+	switch {
+	case bad != "":
+		o2.Fail("binaryFloats decides on something other than the two ParseFloat errors (" + bad + "): operands that both parse as numbers (negative, with exponent, with a leading '+' or '.') can be compared as text")
+	case nTests < 2:
+		o2.Fail("binaryFloats no longer tests both ParseFloat errors")
+	default:
+		o2.OK("the two ParseFloat errors and nothing else")
 	}
 }
